@@ -237,17 +237,30 @@ def run(ctx):
         for name, want in sorted(GETTERS.items()):
             fn = prog.need_func(name)
             subst = unique_defs(fn)
-            rets = [s for s in walk_stmts(fn.body) if s.k == 'return' and s.e is not None and not s.macro]
-            # guard returns (constants / NULL / -1) are not the value return
-            vals = [s for s in rets if const_value(s.e) is None and strip(s.e).k != 'null']
-            ck.require(len(vals) >= 1, '%s: no value return found' % name)
+            # value returned on every path (flow-sensitive: a getter may go through a local)
+            class Ret(SymRule):
+                def __init__(s_, prog, f):
+                    SymRule.__init__(s_, prog, f)
+                    s_.vals = []
+
+                def on_return(s_, c2, node, mask, ts):
+                    if c2.fn is s_.fn and node.e is not None and not (node.stmt is not None and node.stmt.macro):
+                        if const_value(node.e) is None and strip(node.e).k != 'null':
+                            v = s_.value(node.e, ts)
+                            if v is None:
+                                v = Lin({show(strip(node.e)): 1})
+                            if not v.is_const():
+                                s_.vals.append((v, node.line))
+                    return ts
+            rr = Ret(prog, fn)
+            run_rule(prog, fn, rr)
+            ck.require(len(rr.vals) >= 1, '%s: no value return found' % name)
             got = []
             okall = True
-            for s in vals:
-                v = lin(s.e, subst)
-                if v is None:
-                    v = Lin({show(strip(s.e)): 1})
-                got.append(v)
+            vals = rr.vals
+            for v, line in vals:
+                if v not in got:
+                    got.append(v)
                 alt = None
                 if name == 'zck_get_chunk_start':
                     alt = Lin({'idx->start': 1})      # chunk without a context (range index entry)
@@ -257,7 +270,7 @@ def run(ctx):
             ck.ob('C13-a', 'R8.getter', name, 'returns', okall,
                   '%s returns %s' % (name, ' / '.join(repr(g) for g in got)) + ('' if okall else
                                                                                ' (expected %r)' % want),
-                  fn.file, vals[0].line, config=config, sample={'getter': name, 'returns': [repr(g) for g in got]})
+                  fn.file, vals[0][1], config=config, sample={'getter': name, 'returns': [repr(g) for g in got]})
         ck.min_instances('metadata getters', n, 20)
         # zck_get_data_length walks to the LAST chunk
         dlf = prog.need_func('zck_get_data_length')
